@@ -25,6 +25,14 @@ func (c *Ctx) pairRule(rule, reader, writer string, skip map[string]bool) (r, w 
 	if r == nil || w == nil {
 		return
 	}
+	if why := c.codecOpaque(r, 0); why != "" {
+		c.R.Infof(rule, name(r), "pair:"+shortID(name(w)), c.Pos(r.Pos()), "not decided for this shape: the reader uses "+why)
+		return
+	}
+	if why := c.codecOpaque(w, 0); why != "" {
+		c.R.Infof(rule, name(r), "pair:"+shortID(name(w)), c.Pos(r.Pos()), "not decided for this shape: the writer uses "+why)
+		return
+	}
 	rl := c.flatten(c.codecTable(r, true), true, 0)
 	wl := c.flatten(c.codecTable(w, false), false, 0)
 	if len(rl) == 0 || len(wl) == 0 {
@@ -47,6 +55,10 @@ type layoutField struct {
 
 func (c *Ctx) layoutRule(rule string, fn *ssa.Function, isRead bool, filter func(leaf) bool, want []layoutField, specName string) {
 	if fn == nil {
+		return
+	}
+	if why := c.codecOpaque(fn, 0); why != "" {
+		c.R.Infof(rule, name(fn), "layout:"+specName, c.Pos(fn.Pos()), "not decided for this shape: the codec uses "+why)
 		return
 	}
 	ls := c.flatten(c.codecTable(fn, isRead), isRead, 0)
